@@ -51,6 +51,10 @@ end
 theorem setLatBase_guards_eq :
     Src.setLatBase_guards = ["abs(detbase) < 1e-08 -> LatticeError", "detbase < 0.0 -> LatticeError"] := rfl
 theorem setLatPar_guards_eq : Src.setLatPar_guards = [] := rfl
+/-- array arguments are copied (`numpy.array`), never aliased: a lattice does not change when the caller
+reuses the array it passed in (the model has value semantics) -/
+theorem arrayArgs_copied :
+    Src.setLatPar_arrayArgs = ["baserot: numpy.array"] ∧ Src.setLatBase_arrayArgs = ["base: numpy.array"] := ⟨rfl, rfl⟩
 theorem method_guards_eq : Src.cartesian_guards = [] ∧ Src.fractional_guards = [] ∧ Src.dot_guards = [] ∧
     Src.norm_guards = [] ∧ Src.rnorm_guards = [] ∧ Src.dist_guards = [] ∧ Src.angle_guards = [] :=
   ⟨rfl, rfl, rfl, rfl, rfl, rfl, rfl⟩
